@@ -145,6 +145,23 @@ pub fn adjust(cfg: &mut SwarmCfg, tier: &str, r: &mut Prng) {
             setw(cfg, "crash", 1);
             setw(cfg, "reload", 10);
         }
+        "C07" => {
+            cfg.oracles = sv(&["agreement", "joiner", "tree-valid"]);
+            cfg.faults = sv(&["J-NOT-ADDRESSED", "J-WRONG-TREE", "J-STALE-GROUP-INFO", "N-RACE", "N-REORD"]);
+            cfg.knobs.push(("observe-every".into(), 6));
+            cfg.knobs.push(("psk".into(), 1));
+            setw(cfg, "commit", 18);
+            setw(cfg, "propose", 10);
+            setw(cfg, "join", 10);
+            setw(cfg, "bad_join", 8);
+            setw(cfg, "ext_commit", 5);
+            setw(cfg, "write", 10);
+            setw(cfg, "crash", 0);
+            if r.chance(1, 4) {
+                cfg.scenario = "rejoin-same-storage".into();
+                cfg.same_storage_rejoin = true;
+            }
+        }
         "C06" => {
             cfg.oracles = sv(&["agreement", "restore"]);
             cfg.faults = sv(&["P-CRASH", "N-REORD", "N-DUP", "N-RACE", "N-STALE", "crash-with-pending"]);
@@ -204,6 +221,9 @@ pub fn extra_kinds(w: &World, kinds: &mut Vec<(&'static str, u32)>) {
     }
     if w.cfg.weight("byz") > 0 && w.live_members(g).len() >= 2 {
         kinds.push(("byz", w.cfg.weight("byz")));
+    }
+    if w.cfg.weight("bad_join") > 0 && !w.groups[g].log.is_empty() {
+        kinds.push(("bad_join", w.cfg.weight("bad_join")));
     }
     if w.cfg.weight("burst") > 0 && !w.live_members(g).is_empty() && w.ext.bursts < 2 {
         kinds.push(("burst", w.cfg.weight("burst")));
@@ -305,6 +325,22 @@ pub fn extra_action(w: &mut World, kind: &str) -> Option<Action> {
                 g,
                 msg: target,
                 m,
+            })
+        }
+        "bad_join" => {
+            let variant = w.prng.below(3);
+            let n = w.parties.len();
+            let q = if variant == 1 {
+                let inv: Vec<usize> = (0..n).filter(|p| w.mem_ref(*p, g).map(|m| m.welcome.is_some()).unwrap_or(false)).collect();
+                if inv.is_empty() { w.prng.usize_below(n) } else { *w.prng.pick(&inv) }
+            } else {
+                w.prng.usize_below(n)
+            };
+            Some(Action::Special {
+                kind: "bad_join".into(),
+                a: variant,
+                b: q as u64,
+                c: g as u64,
             })
         }
         "burst" => {
